@@ -8,7 +8,7 @@
    harness calls the underlying library directly (snappy.Encode/Decode, lz4.CompressBlock/UncompressBlock,
    NOT gocql's wrappers) on the same data and passes the result as a finite table; the model then has to
    reproduce everything gocql adds around it (flag handling, header, length patch, lz4 length prefix). *)
-From GocqlV Require Import Lib.Base Gen.Consts C18.Model.
+From GocqlV Require Import Lib.Base Gen.Consts C18.Model C18.Spec.
 
 Definition tab := list (bytes * option bytes).
 Fixpoint tab_lookup (t : tab) (b : bytes) : option bytes :=
@@ -51,10 +51,12 @@ Inductive case :=
 | CReadLen (len avail : Z) (out : option errc)
 | CRecv (ck : ckind) (version : Z) (wire : bytes) (out : res bytes)
 | CConn (ck : ckind) (version : Z) (ls : list label) (obs : list (reqkind * bytes * option (list Z)))
-        (final : option (list Z))
+        (final : option (option (list Z)))    (* c.compressor's name after startup; None = not observed *)
 | CLz4Enc (data : bytes) (raw : option bytes) (out : option bytes)
 | CLz4Dec (data : bytes) (raw : option bytes) (out : option bytes)
 | CLz4Bound (n b : Z)
+| CLz4Block (blk : bytes) (n : Z) (out : option bytes)   (* the library's UncompressBlock on a block its compressor made,
+                                                            against the block decoder of Spec.v (the LZ4 format) *)
 | CName (which : Z) (name : list Z).
 
 Definition errc_eqb (a b : errc) : bool :=
@@ -130,12 +132,16 @@ Definition check (c : case) : bool :=
       match run_conn (conn_init (codec_of ck) version) ls with
       | Some (s, out) =>
           obs_eqb out obs
-          && opt_eqb zlist_eqb (match k_comp s with Some c => Some (c_name c) | None => None end) final
+          && match final with
+             | None => true
+             | Some fin => opt_eqb zlist_eqb (match k_comp s with Some c => Some (c_name c) | None => None end) fin
+             end
       | None => false
       end
   | CLz4Enc data raw out => opt_eqb zlist_eqb (lz4_encode (fun _ => raw) data) out
   | CLz4Dec data raw out => opt_eqb zlist_eqb (lz4_decode (fun _ _ => raw) data) out
   | CLz4Bound n b => lz4_bound n =? b
+  | CLz4Block blk n out => opt_eqb zlist_eqb (lz4_block_decode_into blk n) out
   | CName which name =>
       zlist_eqb (if which =? 0 then name_snappy else if which =? 1 then name_lz4 else key_COMPRESSION) name
   end.
